@@ -985,6 +985,7 @@ fn explore_async(prop: &str, seed: u64, sc: &Scenario, thorough: bool, st: &mut 
         };
         let o = eval_async_on(bref, &p.sc, &p.strat, p.rs, None);
         crate::driver::chain(o.digest);
+        let rebuild = bref.broken;
         st.runs += 1;
         st.steps += o.steps;
         st.switches += o.switches;
@@ -1009,6 +1010,10 @@ fn explore_async(prop: &str, seed: u64, sc: &Scenario, thorough: bool, st: &mut 
         }
         for v in &o.violations {
             push_found(prop, found, st, v, || mk_replay(prop, seed, &p.sc, "run", &p.strat, p.rs, Some(o.trace.clone()), o.digest, v));
+        }
+        if rebuild {
+            let old = std::mem::replace(&mut b, build_async(sc));
+            dispose_async(old);
         }
     }
     *CUR.lock().unwrap() = None;
